@@ -1,6 +1,7 @@
 """C17 — the de Bruijn-grid generator yields a planar edge-to-edge rhombus tiling.
 
-The generator (cos/sin/la.inv/argsort on irrational data) is not modelled.  Every output lattice of
+The generator (cos/sin/la.inv/argsort on irrational data) is modelled only in its algebraic core (Model/DeBruijn.v, K below:
+generate_captured / ser_db / ser_gv / compare_dual, extraction cross-check coq_crosscheck).  Every output lattice of
 de_brujin_grid / penrose_tiling is decided EXACTLY by the extracted, proved-sound checker
 Model/Tiling2.check_rhombus_tiling (float64 positions enter as exact dyadics).  Exceptions raised by the
 generator inside the property's domain are violations."""
@@ -10,12 +11,20 @@ from koala import quasicrystals
 from koala.lattice import Lattice
 
 DRIVERS = ("c17",)
-MODEL_TARGETS = ["Model/Lattice.vo", "Model/Tiling2.vo"]
-TARGETS = ["Proofs/Tiling2Facts.vo"]
+MODEL_TARGETS = ["Model/Lattice.vo", "Model/Tiling2.vo", "Model/DeBruijn.vo"]
+TARGETS = ["Proofs/Tiling2Facts.vo", "Proofs/DeBruijnFacts.vo", "Proofs/RhombusTol.vo"]
 LEVEL = "proof"
 TRUST = [
-    "PARTIAL, checker-level: the generator quasicrystals.de_brujin_grid is NOT modelled; the theorems are soundness theorems of the checker "
-    "check_rhombus_tiling (coq/Model/Tiling2.v) which is run (extracted) on every generated output; 'for all offsets' is explored, not proved",
+    "PARTIAL: the generator quasicrystals.de_brujin_grid is modelled only in its algebraic core (coq/Model/DeBruijn.v: line offsets, intersection by "
+    "Cramer's rule, find_pent_index, clipping window, map_to_position; theorems C17_dual_parallelogram / C17_dual_rhombus / C17_generic_cells_exist / "
+    "C17_grid_vertex_on_lines over Q with abstract directions); argsort / edge construction / make_dual / clipping / trailing-edge removal are not modelled "
+    "here, so the remaining theorems are soundness theorems of the checker check_rhombus_tiling (coq/Model/Tiling2.v) which is run (extracted) on every "
+    "generated output; 'for all offsets' is explored, not proved",
+    "K of the dual construction reads the generator's intermediate arrays (angles, normals, starting_positions, scaling, dual vertex positions, all_indices, "
+    "mask, scale2, all_vertices) from the frame of de_brujin_grid when it returns (sys.settrace in the harness process; /repo untouched); the model is "
+    "evaluated exactly on those float values; dual vertices within 1e-9 of a grid line (in line spacings) are skipped; when a local of that name does "
+    "not exist the comparison is skipped and counted (dualK:intermediates-not-observable), not reported; that the averaged corner point of a grid face "
+    "lies in the face's cell is not proved - every (sampled, thorough: every) face is instead certified by the proved checker quad_steps on the index vectors",
     "the face census inside the checker is the shared model Lattice.find_all_plaquettes (tied to lattice.py by C01's correspondence run); Euler's theorem "
     "(crossing-free + connected => the bounded faces are exactly the E-V+1 plaquettes) is not proved in Coq",
     "star directions (cos, sin)(2 pi b/B) enter as the double-precision libm values (error < 1e-15), exact as dyadic rationals; tolerance 1e-9 on "
@@ -98,6 +107,194 @@ def generate(case):
     return quasicrystals.de_brujin_grid(case["n"], case["B"], off, case["disorder"])
 
 
+# ------------------------------------------------------------------ K for the dual construction (Model/DeBruijn.v)
+# The arrays the generator passes from its grid stage to its dual stage are not return values.  They are read, without
+# touching /repo, from the frame of de_brujin_grid when it returns (sys.settrace, 'return' event only).  If a local of
+# that name no longer exists (renamed by a refactoring) this part of K is skipped and counted, never reported.
+WANT = ("angles", "gradients", "normals", "grid_offsets", "number_of_lines", "scaling", "starting_positions", "all_vertices",
+        "dual", "all_indices", "mask", "dual_clipped", "scale2")
+
+
+def generate_captured(case):
+    import sys
+    box = {}
+    code = quasicrystals.de_brujin_grid.__code__
+
+    def tracer(frame, event, arg):
+        if event == "call" and frame.f_code is code:
+            frame.f_trace_lines = False
+
+            def local(frame, event, arg):
+                if event == "return":
+                    box.clear()
+                    box.update({n: frame.f_locals[n] for n in WANT if n in frame.f_locals})
+                return local
+            return local
+        return None
+    old = sys.gettrace()
+    sys.settrace(tracer)
+    try:
+        lat = generate(case)
+    finally:
+        sys.settrace(old)
+    return lat, box
+
+
+def plain_capture(box, lat):
+    """picklable copy of the captured intermediates (None when something is missing or has an unexpected shape)"""
+    try:
+        if any(n not in box for n in WANT):
+            return None
+        B = len(box["angles"])
+        d = {"angles": np.array(box["angles"], dtype=float).reshape(B), "gradients": np.array(box["gradients"], dtype=float).reshape(B, 2),
+             "normals": np.array(box["normals"], dtype=float).reshape(B, 2), "grid_offsets": np.array(box["grid_offsets"], dtype=float).reshape(B),
+             "n": int(box["number_of_lines"]), "scaling": float(box["scaling"]), "scale2": float(box["scale2"]),
+             "starts": np.array(box["starting_positions"], dtype=float).reshape(B, 2),
+             "all_vertices": np.array(box["all_vertices"], dtype=float).reshape(-1, 2),
+             "dual_pos": np.array(box["dual"].vertices.positions, dtype=float).reshape(-1, 2),
+             "all_indices": np.array(box["all_indices"], dtype=float).reshape(-1, B),
+             "mask": np.array(box["mask"], dtype=bool).reshape(-1),
+             "clipped_pos": np.array(box["dual_clipped"].vertices.positions, dtype=float).reshape(-1, 2)}
+        if len(d["all_indices"]) != len(d["dual_pos"]) or len(d["mask"]) != len(d["dual_pos"]) or len(d["clipped_pos"]) != lat.n_vertices:
+            return None
+        d["faces"] = [[int(v) for v in p.vertices] for p in lat.plaquettes]
+        return d
+    except Exception:
+        return None
+
+
+def qtok(x):
+    f = Fraction(float(x))
+    return hx(f.numerator) + " " + hx(f.denominator)
+
+
+def qpairs(arr):
+    arr = np.asarray(arr, dtype=float).reshape(-1, 2)
+    return [str(len(arr))] + [qtok(x) + " " + qtok(y) for x, y in arr]
+
+
+def ser_db(cap, quick=False):
+    """db line: the generator's own arrays (exact dyadics) -> find_pent_index / window / map_to_position of the model for dual
+    vertices: first vertices cap["sel"] of the unclipped dual, then vertices cap["csel"] of the clipped dual (= the tiling's
+    vertices), and the certificate of the faces cap["fsel"].  Thorough tier: everything; quick tier: 100 random unclipped
+    vertices, 60 random faces and their vertices plus 40 more random tiling vertices (the extracted rational arithmetic
+    costs ~6 ms per vertex)."""
+    stars = np.stack([np.cos(cap["angles"]), np.sin(cap["angles"])], axis=1)       # map_to_position's own expressions
+    nd, nc = len(cap["dual_pos"]), len(cap["clipped_pos"])
+    faces = [f for f in cap["faces"] if len(f) == 4]
+    rng = np.random.default_rng([nd, nc, 17])
+    pick = lambda n, k: list(range(n)) if (not quick or n <= k) else sorted(rng.choice(n, size=k, replace=False).tolist())
+    cap["sel"] = pick(nd, 100)
+    fsel = [faces[k] for k in pick(len(faces), 60)]
+    cap["csel"] = sorted(set(v for f in fsel for v in f) | set(pick(nc, 40)))
+    where = {v: k for k, v in enumerate(cap["csel"])}
+    pts = np.concatenate([cap["dual_pos"][cap["sel"]].reshape(-1, 2), cap["clipped_pos"][cap["csel"]].reshape(-1, 2)])
+    n1 = len(cap["sel"])
+    toks = ["db", hx(cap["n"]), qtok(cap["scaling"])] + qpairs(cap["starts"]) + qpairs(cap["normals"]) + qpairs(stars) + qpairs(pts)
+    toks.append(str(len(fsel)))
+    for f in fsel:
+        toks += [str(where[v] + n1) for v in f]
+    return " ".join(toks), stars, fsel
+
+
+def ser_gv(cap, quick=False):
+    """gv line: starting positions and grid intersections (all of them; quick tier: 120 random ones) of the model grid"""
+    B, n = len(cap["angles"]), cap["n"]
+    toks = ["gv", str(n), qtok(cap["scaling"])] + qpairs(cap["gradients"]) + qpairs(cap["normals"])
+    toks += [str(B)] + [qtok(x) for x in cap["grid_offsets"]]
+    pairs = [(b1, b2) for b1 in range(B) for b2 in range(b1 + 1, B)]
+    tot = len(pairs) * n * n
+    ks = list(range(tot)) if (not quick or tot <= 120) else sorted(np.random.default_rng([tot, 171]).choice(tot, size=120, replace=False).tolist())
+    cap["gsel"] = ks
+    toks.append(str(len(ks)))
+    for k in ks:                                                            # the code's loop order: b1 < b2, l1, l2
+        (b1, b2), l1, l2 = pairs[k // (n * n)], (k % (n * n)) // n, k % n
+        toks += [str(b1), str(l1), str(b2), str(l2)]
+    return " ".join(toks)
+
+
+def qval(toks, i):
+    return Fraction(unhx(toks[i]), unhx(toks[i + 1]))
+
+
+def compare_dual(ctx, case, w, cap, o_db, o_gv, stars, faces):
+    """model (exact, on the generator's own float arrays) against the generator: index vectors, clipping window, tiling
+    positions, the face certificates, grid intersections and starting positions"""
+    ex = ctx.res.extra
+    st = ex.setdefault("dualK", {"cases": 0, "points_index_compared": 0, "points_near_grid_line_skipped": 0, "positions_compared": 0,
+                                 "faces_certified": 0, "faces_skipped_near_grid_line": 0, "grid_vertices_compared": 0})
+    B = len(cap["angles"])
+    sel, csel = cap["sel"], cap["csel"]
+    where = {v: k for k, v in enumerate(csel)}
+    n1, n2 = len(sel), len(csel)
+    idx = np.array([unhx(t) for t in o_db["idx"]], dtype=object).reshape(n1 + n2, B)
+    mar = np.array([float(qval(o_db["mar"], 2 * i)) for i in range(n1 + n2)])
+    win = np.array([t == "1" for t in o_db["win"]])
+    good = mar >= 1e-9
+    bad = []
+    # (1) find_pent_index and (2) the mask on the unclipped dual
+    for p in range(n1):
+        if not good[p]:
+            st["points_near_grid_line_skipped"] += 1
+            continue
+        st["points_index_compared"] += 1
+        impl = [int(x) for x in cap["all_indices"][sel[p]]]
+        if impl != [int(x) for x in idx[p]]:
+            bad.append(f"find_pent_index of dual vertex {sel[p]}: implementation {impl}, model {[int(x) for x in idx[p]]}")
+        elif bool(cap["mask"][sel[p]]) != (not win[p]):
+            bad.append(f"clipping mask of dual vertex {sel[p]} (index {impl}): implementation removes={bool(cap['mask'][sel[p]])}, model keeps={bool(win[p])}")
+    # (3) positions of the final lattice
+    pos_model = np.array([[float(qval(o_db["pos"], 4 * i)), float(qval(o_db["pos"], 4 * i + 2))] for i in range(n1, n1 + n2)]).reshape(-1, 2)
+    if n2 and n2 == len(cap["clipped_pos"]) and good[n1:].all():
+        s2 = 0.9 / (2 * np.max(np.abs(pos_model)))
+        if abs(s2 - cap["scale2"]) > 1e-9 * s2:
+            bad.append(f"final rescaling: implementation scale2={cap['scale2']!r}, model {s2!r}")
+    for q in range(n2):
+        if not good[n1 + q]:
+            continue
+        st["positions_compared"] += 1
+        d = np.max(np.abs(pos_model[q] * cap["scale2"] + 0.5 - w["pos"][csel[q]]))
+        if not d <= 1e-9:
+            bad.append(f"position of tiling vertex {csel[q]}: implementation {w['pos'][csel[q]].tolist()}, model {(pos_model[q] * cap['scale2'] + 0.5).tolist()}")
+    # (4) every face is a unit square of the index lattice (proved-sound certificate quad_steps)
+    qd = o_db["quad"]
+    for k, f in enumerate(faces):
+        if not all(good[n1 + where[v]] for v in f):
+            st["faces_skipped_near_grid_line"] += 1
+            continue
+        if qd[4 * k] == "-1":
+            bad.append(f"face {f}: index vectors {[[int(x) for x in idx[n1 + where[v]]] for v in f]} are not K, K+-e_i, K+-e_i+-e_j, K+-e_j")
+        else:
+            st["faces_certified"] += 1
+    # (5) grid intersections and starting positions
+    pts = o_gv["pts"]
+    av = cap["all_vertices"]
+    n = cap["n"]
+    pairs = [(b1, b2) for b1 in range(B) for b2 in range(b1 + 1, B)]
+    if len(av) != len(pairs) * n * n or len(pts) != 5 * len(cap["gsel"]):
+        bad.append(f"number of grid intersections: implementation {len(av)}, model {len(pairs) * n * n}")
+    else:
+        for i, k in enumerate(cap["gsel"]):
+            b1, b2 = pairs[k // (n * n)]
+            g1, g2 = cap["gradients"][b1], cap["gradients"][b2]
+            det = abs(float(g1[0] * g2[1] - g1[1] * g2[0]))
+            if pts[5 * i] != "1":
+                bad.append(f"grid intersection {k}: singular in the model")
+                break
+            pm = np.array([float(qval(pts, 5 * i + 1)), float(qval(pts, 5 * i + 3))])
+            st["grid_vertices_compared"] += 1
+            if not np.max(np.abs(pm - av[k])) <= 1e-9 * max(1.0, float(np.max(np.abs(pm)))) / max(det, 1e-6):
+                bad.append(f"grid intersection {k} (bundles {b1},{b2}): implementation {av[k].tolist()}, model {pm.tolist()}")
+                break
+    sm = np.array([[float(qval(o_gv["starts"], 4 * b)), float(qval(o_gv["starts"], 4 * b + 2))] for b in range(B)])
+    if not np.max(np.abs(sm - cap["starts"])) <= 1e-12:
+        bad.append(f"starting_positions: implementation {cap['starts'].tolist()}, model {sm.tolist()}")
+    st["cases"] += 1
+    if bad:
+        ctx.k_mismatch(f"dual construction, {describe(case)}: " + "; ".join(bad[:4]) + (f" (+{len(bad) - 4} more)" if len(bad) > 4 else ""), case)
+    return not bad
+
+
 def ser_case(lat, B, use_dirs):
     line, S = ser_lattice(lat)
     D = 1 << DIR_DEN_BITS
@@ -150,7 +347,7 @@ def work(case):
             out["offsets"] = offsets_of(case).tolist()
         return out
     try:
-        lat = generate(case)
+        lat, box = generate_captured(case)
     except Exception as e:
         tb = traceback.extract_tb(e.__traceback__)
         where = next((f"{os.path.basename(f.filename)}:{f.lineno}" for f in reversed(tb) if "koala" in f.filename), "?")
@@ -167,6 +364,7 @@ def work(case):
     if case["disorder"] == 0:
         rc = rhombus_classes(lat, case["B"])
         out["rc"] = rc if rc is not None else "bad"
+    out["cap"] = plain_capture(box, lat)
     return out
 
 
@@ -204,6 +402,9 @@ def evaluate(ctx, cases, label):
         built.append((case, fam, w))
         lines.append(ser_arrays(w["pos"], w["edges"], w["crossing"], case["B"], case["disorder"] == 0))
     outs = run_driver_parallel(ctx.exe["c17"], lines, jobs=8, timeout=6000)
+    db_sent = dual_phase(ctx, built)
+    if label == "S":
+        coq_crosscheck(ctx, list(zip(lines, outs)), db_sent)
     for (case, fam, w), o in zip(built, outs):
         if "error" in o:
             raise RuntimeError(f"c17 driver error {o['error']} on {case}")
@@ -243,6 +444,113 @@ def evaluate(ctx, cases, label):
                     d[str(k)] = d.get(str(k), 0) + v
                 if case["B"] == 5 and not set(rc) <= {36, 72}:
                     res.violation("penrose-rhombi", f"{describe(case)}: rhombus acute angles {sorted(rc)} (expected only 36 and 72 degrees)", case)
+
+
+def dual_phase(ctx, built):
+    """K of the dual construction for every generated case whose intermediates could be read; returns (line, answer) pairs"""
+    res = ctx.res
+    jobs = []
+    for case, fam, w in built:
+        cap = w.get("cap")
+        if cap is None:
+            res.skip("dualK:intermediates-not-observable")
+            continue
+        line, stars, faces = ser_db(cap, ctx.tier == "quick")
+        jobs.append((case, w, cap, line, ser_gv(cap, ctx.tier == "quick"), stars, faces))
+    lines = [x for j in jobs for x in (j[3], j[4])]
+    outs = run_driver_parallel(ctx.exe["c17"], lines, jobs=8, timeout=6000)
+    for k, j in enumerate(jobs):
+        o_db, o_gv = outs[2 * k], outs[2 * k + 1]
+        if "error" in o_db or "error" in o_gv:
+            raise RuntimeError(f"c17 driver error {o_db.get('error') or o_gv.get('error')} on the dual construction of {j[0]}")
+        compare_dual(ctx, j[0], j[1], j[2], o_db, o_gv, j[5], j[6])
+    return list(zip(lines, outs))
+
+
+# ------------------------------------------------------------------ extraction cross-check (DESIGN 1.3)
+def coq_crosscheck(ctx, s_sent, db_sent):
+    """A sample of the c17 driver's answers is re-derived INSIDE Coq (vm_compute in a generated cases.v): the verdict of
+    check_rhombus_tiling on the smallest output lattices (and on every rejected one that is small enough), and, for the dual
+    construction, db_eval (index vector, margin, window flag, position) of sampled dual vertices, quad_steps of sampled faces
+    and sampled grid intersections / all starting positions."""
+    import xcheck as X
+    quick = ctx.tier == "quick"
+    rng = np.random.default_rng([ctx.seed, 17, 99])
+    body = []
+    g = lambda lhs, rhs: body.append(X.goal(lhs, rhs))
+    q = lambda fr: f"(Qmake {X.z(fr.numerator)} {int(fr.denominator)}%positive)"
+    qp = lambda ab: f"({q(ab[0])}, {q(ab[1])})"
+    n_cases = {"check_rhombus_tiling": 0, "db_eval": 0, "quad_steps": 0, "grid_points": 0, "grid_starts": 0}
+    # --- the checker's verdicts
+    pool = []
+    for line, o in s_sent:
+        if "error" in o:
+            continue
+        t = line.split()
+        c = Cursor(t[1:])
+        tn, td, use = c.z(), c.z(), c.next() == "1"
+        dirs = c.list(lambda: (c.z(), c.z()))
+        S, P, E, Cr = X.read_lattice(c)
+        if not c.done():
+            raise RuntimeError("extraction cross-check: could not read back the whole c17 line")
+        pool.append((len(P), o["ok"][0] == "1", tn, td, use, dirs, S, P, E, Cr))
+    pool.sort(key=lambda r: r[0])
+    chosen = pool[:(3 if quick else 12)] + [r for r in pool[(3 if quick else 12):] if not r[1] and r[0] <= 150][:3]
+    for nv, ok, tn, td, use, dirs, S, P, E, Cr in chosen:
+        g(f"check_rhombus_tiling {X.z(tn)} {X.z(td)} {X.boolean(use)} {X.lst(X.zpair, dirs)} {X.lattice_ints(S, P, E, Cr)}", X.boolean(ok))
+        n_cases["check_rhombus_tiling"] += 1
+    # --- the dual construction
+    dbs = [(l, o) for l, o in db_sent if l.startswith("db ") and "error" not in o]
+    gvs = [(l, o) for l, o in db_sent if l.startswith("gv ") and "error" not in o]
+    rq = lambda c: Fraction(c.z(), c.z())
+    rqp = lambda c: (rq(c), rq(c))
+    for i in (sorted(rng.choice(len(dbs), size=min(len(dbs), 2 if quick else 8), replace=False).tolist()) if dbs else []):
+        line, o = dbs[i]
+        c = Cursor(line.split()[1:])
+        n, sc = c.z(), rq(c)
+        starts, normals, stars, pts = (c.list(lambda: rqp(c)) for _ in range(4))
+        faces = c.list(lambda: [c.int(), c.int(), c.int(), c.int()])
+        if not c.done():
+            raise RuntimeError("extraction cross-check: could not read back the whole db line")
+        B = len(starts)
+        idx = [[unhx(x) for x in o["idx"][B * p:B * p + B]] for p in range(len(pts))]
+        args = f"{X.z(n)} {q(sc)} {X.lst(qp, starts)} {X.lst(qp, normals)} {X.lst(qp, stars)}"
+        for p in sorted(rng.choice(len(pts), size=min(len(pts), 8 if quick else 25), replace=False).tolist()):
+            mar = qval(o["mar"], 2 * p)
+            pos = (qval(o["pos"], 4 * p), qval(o["pos"], 4 * p + 2))
+            g(f"db_eval_red {args} {qp(pts[p])}", f"({X.zlist(idx[p])}, {q(mar)}, {X.boolean(o['win'][p] == '1')}, {qp(pos)})")
+            n_cases["db_eval"] += 1
+        for k in (sorted(rng.choice(len(faces), size=min(len(faces), 8 if quick else 25), replace=False).tolist()) if faces else []):
+            a = o["quad"][4 * k:4 * k + 4]
+            rhs = "None" if a[0] == "-1" else f"Some ({X.nat(int(a[0]))}, {X.z(unhx(a[1]))}, ({X.nat(int(a[2]))}, {X.z(unhx(a[3]))}))"
+            g(f"quad_steps {X.nat(B)} " + " ".join(X.zlist(idx[v]) for v in faces[k]), rhs)
+            n_cases["quad_steps"] += 1
+    for i in (sorted(rng.choice(len(gvs), size=min(len(gvs), 1 if quick else 4), replace=False).tolist()) if gvs else []):
+        line, o = gvs[i]
+        c = Cursor(line.split()[1:])
+        n, sc = c.int(), rq(c)
+        grads, normals = c.list(lambda: rqp(c)), c.list(lambda: rqp(c))
+        offs = c.list(lambda: rq(c))
+        req = c.list(lambda: (c.int(), c.int(), c.int(), c.int()))
+        if not c.done():
+            raise RuntimeError("extraction cross-check: could not read back the whole gv line")
+        grid = f"(mkGrid {X.lst(qp, grads)} {X.lst(qp, normals)} {X.lst(q, offs)} {X.nat(n)} {q(sc)})"
+        B = len(grads)
+        if len(o["pts"]) != 5 * len(req):
+            raise RuntimeError("extraction cross-check: unexpected number of grid intersections in the gv answer")
+        for k in sorted(rng.choice(len(req), size=min(len(req), 6), replace=False).tolist()):
+            t = o["pts"][5 * k:5 * k + 5]
+            b1, l1, b2, l2 = req[k]
+            g(f"grid_point_red {grid} {X.nat(b1)} {X.nat(l1)} {X.nat(b2)} {X.nat(l2)}",
+              "None" if t[0] != "1" else f"Some {qp((qval(t, 1), qval(t, 3)))}")
+            n_cases["grid_points"] += 1
+        g(f"grid_starts_red {grid}", X.lst(qp, [(qval(o["starts"], 4 * b), qval(o["starts"], 4 * b + 2)) for b in range(B)]))
+        n_cases["grid_starts"] += 1
+    ex = ctx.res.extra
+    ex["extraction_crosscheck_goals_vm_compute"] = X.compile_goals("c17", "Model.Lattice Model.Tiling2 Model.DeBruijn", body, "c17",
+                                                                   stdlib="List ZArith Bool QArith")
+    ex["extraction_crosscheck_cases"] = n_cases
+    ex["extraction_crosscheck_wall_s"] = X.LAST_WALL
 
 
 def describe(case):
